@@ -126,7 +126,7 @@ func runS1(r *compileRun, tier string, extraArch []uint32) {
 
 // runS1Raw: group actions that are not among the seven named ones must be returned as their exact constant.
 func runS1Raw(r *compileRun) {
-	raw := []seccomp.Action{seccomp.ActionUserNotify, seccomp.ActionErrno | 5, seccomp.ActionTrace | 7, 0x12345678}
+	raw := []seccomp.Action{seccomp.ActionUserNotify, seccomp.ActionErrno | 5, seccomp.ActionErrno | 2, seccomp.ActionTrace | 7, 0x12345678}
 	for _, a := range refsem.Archs() {
 		names := s1Names(a)
 		extra := boundaryNrs(a, numbersOf(a, names))
@@ -232,7 +232,7 @@ func runS1Table(r *compileRun, tier string) {
 // runS1Deep: many groups. n = 4..8 groups (thorough: ..9), every group is empty or lists one of the three names
 // (4 choices per group), the action of group i is fixed by i so that the deciding group is identified by the answer.
 func runS1Deep(r *compileRun, tier string) {
-	acts := []seccomp.Action{seccomp.ActionAllow, seccomp.ActionErrno, seccomp.ActionTrap, seccomp.ActionKillThread, seccomp.ActionLog, seccomp.ActionTrace, seccomp.ActionKillProcess, seccomp.ActionUserNotify, seccomp.ActionErrno | 9}
+	acts := []seccomp.Action{seccomp.ActionAllow, seccomp.ActionErrno, seccomp.ActionTrap, seccomp.ActionKillThread, seccomp.ActionLog, seccomp.ActionTrace, seccomp.ActionKillProcess, seccomp.ActionUserNotify, seccomp.ActionErrno | 9, seccomp.ActionErrno | 6}
 	maxN := 8
 	if tier == "thorough" {
 		maxN = 9
